@@ -32,4 +32,58 @@ package jlib
 //@   assigns nothing
 //@   trusted
 
+// --- C13: $sort ------------------------------------------------------------------------------------------
+// $sort(a) on an all-number / all-string array: the members are collected in order (every one of them a float64 /
+// a string, which is what the comparison closures assert), then ordered by sort.SliceStable (trusted: stable) with
+// numeric < / string <. The closures' preconditions are obligations at the SliceStable call for arbitrary in-range
+// index pairs on any permutation.
+//@ func sortNumberArray
+//@   props C13 C09
+//@   opaque-arith
+//@   precise-append
+//@   requires arrKind(kind(v))
+//@   ensures len(result) <= rvlen(v)
+//@   loop 0 invariant 0 <= i && i <= size && size == rvlen(v) && len(results) <= i && cap(results) >= size
+//@   loop 0 invariant forall k in [0, len(results)): typeis(results[k], "float64")
+//@ func sortNumberArray$1
+//@   props C13 C09
+//@   requires 0 <= i && i < len(results) && 0 <= j && j < len(results)
+//@   requires forall k in [0, len(results)): typeis(results[k], "float64")
+//@   ensures [C13:numeric-ascending] result == (dyn(results[i], "float64") < dyn(results[j], "float64"))
+//@   assigns nothing
+
+//@ func sortStringArray
+//@   props C13 C09
+//@   opaque-arith
+//@   precise-append
+//@   requires arrKind(kind(v))
+//@   ensures len(result) <= rvlen(v)
+//@   loop 0 invariant 0 <= i && i <= size && size == rvlen(v) && len(results) <= i && cap(results) >= size
+//@   loop 0 invariant forall k in [0, len(results)): typeis(results[k], "string")
+//@ func sortStringArray$1
+//@   props C13 C09
+//@   requires 0 <= i && i < len(results) && 0 <= j && j < len(results)
+//@   requires forall k in [0, len(results)): typeis(results[k], "string")
+//@   ensures [C13:string-ascending] result == strlt(dyn(results[i], "string"), dyn(results[j], "string"))
+//@   assigns nothing
+
+// $sort(a, f): merge sort driven by the comparator (f(x, y) true: x goes after y). merge emits exactly
+// len(lhs)+len(rhs) members and takes from the right run only when the comparator says so (stability);
+// mergeSort terminates (the runs get shorter) and keeps the length.
+//@ func merge
+//@   props C13 C09
+//@   opaque-arith
+//@   requires swapFunc != nil
+//@   ensures r1 == nil ==> len(r0) == len(old(lhs)) + len(old(rhs))
+//@   ensures r1 != nil ==> len(r0) == 0
+//@   assigns heap
+//@   loop 0 invariant -1 <= $i0 && len(results) == len(old(lhs)) + len(old(rhs)) && local(results) && len(lhs) + len(rhs) + $i0 + 1 == len(results) && alloc(lhs) && alloc(rhs)
+//@ func mergeSort
+//@   props C13 C09
+//@   requires swapFunc != nil
+//@   ensures r1 == nil ==> len(r0) == len(values)
+//@   ensures r1 != nil ==> len(r0) == 0
+//@   assigns heap
+//@   decreases[msort] len(values)
+
 // END OF CONTRACTS (package jlib)
